@@ -60,7 +60,7 @@ func (o *Options) ServerOptions() []string {
 	if o.PreserveGid() {
 		argstr += "g"
 	}
-	if o.PreserveDevices() {
+	if o.PreserveDevices() && o.PreserveSpecials() {
 		argstr += "D"
 	}
 	if o.PreserveMTimes() {
@@ -100,6 +100,13 @@ func (o *Options) ServerOptions() []string {
 
 	if argstr != "-" {
 		sargv = append(sargv, argstr)
+	}
+
+	// -D is --devices --specials; send them individually if only one is set.
+	if o.PreserveDevices() && !o.PreserveSpecials() {
+		sargv = append(sargv, "--devices")
+	} else if o.PreserveSpecials() && !o.PreserveDevices() {
+		sargv = append(sargv, "--specials")
 	}
 
 	// if (block_size) {
